@@ -132,7 +132,6 @@ def run(rep: Report, repo: Repo):
              f'LUT bit weights from _wave_eval: {weights}')
     rep.floor('LUT constants', len(luts), 33)
     rep.floor('prefix rows', len(rows), 30)
-    rep.floor('ops.append sites', len(sites), 5)
     if sorted(weights) != [2, 3, 4, 5] or sorted(weights.values()) != [1, 2, 4, 8]:
         raise ModelError(f'LUT index convention not recognised: {weights}')
 
@@ -187,6 +186,7 @@ def run(rep: Report, repo: Repo):
                         f'prefix {p!r} must select {exp} for 4/3/2 connected inputs, table has {names}', node=knode)
 
     evaluated = translation_evaluated(rep, simmod, init, rows)
+    rep.floor('ops.append sites', len(sites), 5 if not evaluated else 1)
     try:
         check_arity_selection(rep, simmod, init, rows, luts, weights)
     except (ModelError, AnchorError) as e:
@@ -443,7 +443,7 @@ def translation_evaluated(rep, simmod, init, rows):
         rep.violate('C01.wiring', simmod, init, f'translation of a {what} of kind {case["kind"]!r}',
                     f'SimOps.__init__: for a {what} of kind {case["kind"]!r} with input pins connected {[int(x) for x in case["ins"]]}, output pins connected '
                     f'{[int(x) for x in case["outs"]]}, strip_forks={case["strip_forks"]} the constructor emits {got} but the netlist semantics need {want} '
-                    f'(lut, output line, 4 operand lines, accumulation row; 900 = zero line, 901 = scratch, 1000+p = input slot of s position p); {nbad} of {len(res)} shapes differ',
+                    f'(lut, output line, 4 operand lines, the three accumulation columns (a, line, k); 900 = zero line, 901 = scratch, 1000+p = input slot of s position p); {nbad} of {len(res)} shapes differ',
                     witness={'case': {k: (list(v) if isinstance(v, tuple) else v) for k, v in case.items()}, 'got': str(got), 'want': str(want)}, node=simops.translation_loop(init))
     return True
 
